@@ -528,4 +528,92 @@ Section RefineColl.
         * reflexivity.
   Qed.
 
+  (* ---------------------------------------------------------------- *)
+  (* CreateIndex / DropIndex *)
+
+  Lemma existsb_map {A B} (g : A -> B) (p : B -> bool) l :
+    existsb p (map g l) = existsb (fun x => p (g x)) l.
+  Proof. induction l as [|x t IH]; simpl; auto. rewrite IH. reflexivity. Qed.
+
+  Lemma filter_name_find ixs n :
+    match find_index ixs n with
+    | Some ix => exists rest,
+        filter (fun df => String.eqb (d_name df) n) (map defof ixs) = defof (n, ix) :: rest
+    | None => filter (fun df => String.eqb (d_name df) n) (map defof ixs) = []
+    end.
+  Proof.
+    induction ixs as [|[m jx] t IH]; [reflexivity|].
+    cbn [find_index map filter defof d_name fst snd].
+    destruct (String.eqb m n) eqn:E.
+    - apply String.eqb_eq in E. subst m. eexists. reflexivity.
+    - exact IH.
+  Qed.
+
+  Lemma existsb_name_find ixs n :
+    existsb (fun df => String.eqb (d_name df) n) (map defof ixs) =
+    match find_index ixs n with Some _ => true | None => false end.
+  Proof.
+    induction ixs as [|[m jx] t IH]; [reflexivity|].
+    cbn [find_index map existsb defof d_name fst snd].
+    destruct (String.eqb m n); auto.
+  Qed.
+
+  Theorem sim_create_index c name cf :
+    coll_inv c ->
+    out_rel (@eq string) (coll_create_index c name cf) (s_create_index matchf (abs_coll c) name cf).
+  Proof.
+    intro Hinv. pose proof Hinv as [Hnd _].
+    rewrite (coll_create_index_eq matchf). unfold s_create_index.
+    change (match name with EmptyString => config_name cf | String _ _ => Ok name end)
+      with (index_name name cf).
+    destruct (index_name name cf) as [n| | | |]; try reflexivity.
+    rewrite abs_coll_eq. cbn [sc_docs sc_defs].
+    unfold create_named, fail, failr.
+    pose proof (filter_name_find (c_indexes c) n) as Hfn.
+    destruct (find_index (c_indexes c) n) as [ix|] eqn:Hf.
+    - destruct Hfn as [rest ->]. cbn [defof d_config snd].
+      destruct (config_equal cf (ix_config ix)); [|reflexivity].
+      split; reflexivity.
+    - rewrite Hfn. rewrite existsb_map. cbn [defof d_config].
+      change (existsb _ (c_indexes c)) with (key_clash c cf).
+      destruct (key_clash c cf); [reflexivity|].
+      destruct (new_index cf) as [ix0| | | |] eqn:Hn; try reflexivity.
+      destruct (new_index_inv cf ix0 Hn) as [Hw [He Hcf]].
+      pose proof (build_buildable (fun _ => False) ix0 n (c_docs c) []
+                    (ix_good_empty matchf ix0 Hw He)
+                    (fun x => conj (fun (H : False) => match H with end) (fun H : In x [] => H))
+                    (fun sd _ d (H : False) => H) Hnd) as Hb.
+      unfold defof in Hb. cbn [fst snd map] in Hb. rewrite Hcf in Hb. rewrite <- Hb.
+      destruct (build ix0 (c_docs c)) as [ix' [e|]] eqn:Hbd; cbn [snd]; [reflexivity|].
+      split; [|reflexivity].
+      destruct (build_good matchf (fun _ => False) ix0 (c_docs c) ix' Hbd
+                  (ix_good_empty matchf ix0 Hw He) (fun sd _ d (H : False) => H) Hnd)
+        as [_ [Hc1 Hc2]].
+      rewrite abs_coll_eq. cbn [c_docs c_indexes].
+      rewrite (set_index_none _ _ _ Hf), map_app. cbn [map defof fst snd].
+      unfold defof. cbn [fst snd]. rewrite <- Hc1, <- Hc2, Hcf. reflexivity.
+  Qed.
+
+  Theorem sim_drop_index c name :
+    match coll_drop_index c name, s_drop_index (abs_coll c) name with
+    | (c', inl _), inl sc' => abs_coll c' = sc'
+    | (_, inr e), inr e' => e = e'
+    | _, _ => False
+    end.
+  Proof.
+    unfold coll_drop_index, s_drop_index, fail. rewrite abs_coll_eq. cbn [sc_docs sc_defs].
+    destruct name as [|a s].
+    - rewrite abs_coll_eq. cbn [c_docs c_indexes]. rewrite filter_map_comm. reflexivity.
+    - destruct (String.eqb (String a s) "_id_"); [reflexivity|].
+      rewrite existsb_name_find.
+      destruct (find_index (c_indexes c) (String a s)); [|reflexivity].
+      rewrite abs_coll_eq. cbn [c_docs c_indexes]. rewrite filter_map_comm. reflexivity.
+  Qed.
+
+  (* ---------------------------------------------------------------- *)
+  (* NewCollection *)
+
+  Lemma abs_new_collection : abs_coll (new_collection true) = new_scoll.
+  Proof. reflexivity. Qed.
+
 End RefineColl.
